@@ -68,6 +68,7 @@ def gen_case(seed, tier, idx):
     return {"solver": solver, "sde": spec, "dtype": dtype, "t0": fx(t0), "dt": fx(dt), "T": fx(T),
             "bm": "real" if rs.random() < 0.25 else "stub", "bm_seed": rs.randrange(1 << 30),
             "ts_dtype": rs.choice(["same", "same", "same", "float64", "float32"]),
+            "adaptive_only": rs.choice([None, None, None, {"dt_min": 0.2}, {"dt_min": 10 * dt, "rtol": 1e-2}]),
             "cuts": cuts, "crashes": crashes, "outputs": outputs,
             "cache_size": rs.choice([45, 2, 0]), "fault_rate": bm.gen_fault_rate(st.get("faults")),
             "fault_seed": rs.randrange(1 << 30)}
@@ -87,7 +88,7 @@ def run_case(case, keep_log=False):
     B, m, d = spec["batch"], spec["m"], spec["d"]
     y0 = stubs.make_y0(spec, case["dtype"])
     dt = xf(case["dt"])
-    kw = {}
+    kw = dict(case.get("adaptive_only") or {})
     if solver["options"]:
         kw["options"] = dict(solver["options"])
     probes["f32"] = int(case["dtype"] == "float32")
